@@ -96,13 +96,14 @@ def explore_jobs(mk_mod, mk_name, docs, jobs, cfg, workers, wall_budget_s, chunk
     t0 = time.time()
     deadline = t0 + wall_budget_s
     agg = dict(results=[], stats={}, encoded={}, incomplete={}, errors=[], unfinished_jobs={}, jobs_done=0)
-    pending = [(j, [], []) for j in jobs]
+    from collections import deque
+    pending = deque((j, [], []) for j in jobs)      # round-robin over jobs: leftovers go to the back
     if workers <= 1:
         _worker_init(mk_mod, mk_name, docs, cfg)
         while pending:
             if time.time() > deadline:
                 break
-            j, dec, ql = pending.pop()
+            j, dec, ql = pending.popleft()
             _merge(agg, _worker_run((j, dec, ql, chunk_paths, deadline)), pending)
     else:
         ctx = mp.get_context('fork')
@@ -110,7 +111,7 @@ def explore_jobs(mk_mod, mk_name, docs, jobs, cfg, workers, wall_budget_s, chunk
             inflight = []
             while pending or inflight:
                 while pending and len(inflight) < workers * 2 and time.time() < deadline:
-                    j, dec, ql = pending.pop()
+                    j, dec, ql = pending.popleft()
                     inflight.append(pool.apply_async(_worker_run, ((j, dec, ql, chunk_paths, deadline),)))
                 if not inflight:
                     break
